@@ -50,6 +50,10 @@ func checkC17(c *Check) {
 	c.RuleDoc["R17.21"] = "= R02.11: the running content hash is reset where a frame starts and nowhere else (a reset before the pipeline is drained lets blocks of the abandoned frame into the next frame's checksum)"
 	ruleReaderDst(c, p, "R17.20")
 	c.RuleDoc["R17.20"] = "= R02.6: every block is decoded into the whole block buffer, whatever the previous block left in the slice header"
+	ruleWriteToStartsFresh(c, p, "R17.22")
+	c.RuleDoc["R17.22"] = "WriteTo does not resume a stream that Read has started (the pending part of the current block would be lost)"
+	ruleHandOff(c, p, "R17.23")
+	c.RuleDoc["R17.23"] = "= R02.5: a buffer handed to a compression goroutine is replaced before the Writer writes into it again (accepted data is emitted once, as accepted)"
 	ruleTerminalStatesStay(c, p, "R17.18")
 	c.RuleDoc["R17.18"] = "terminal states are left only by Reset: no transition is registered or performed while the state word may be closedState (or errorState for deferred transitions)"
 	c.RuleDoc["R17.10"] = "the first-use initialisation is followed by the state transition on every path"
